@@ -24,6 +24,10 @@ warnings.filterwarnings('ignore')
 
 import common  # noqa: E402
 
+# the implementation is imported from the working tree under check (SAGEOPT_REPO, default /repo), never from an installed copy
+if common.REPO not in sys.path:
+    sys.path.insert(0, common.REPO)
+
 
 def main():
     ap = argparse.ArgumentParser()
@@ -36,6 +40,13 @@ def main():
     mod = importlib.import_module('props.%s' % prop.lower())
     if args.replay:
         obj = json.load(open(args.replay))
+        r = obj.get('replay') if isinstance(obj, dict) else None
+        if hasattr(mod, 'recheck') and isinstance(r, dict) and not r.get('no_failing_input_found'):
+            # execute the stored input again on the current tree: exit 1 when it (still) fails, 0 when it does not
+            print('what was reported:', obj.get('what'))
+            why = mod.recheck(r)
+            print('on the current tree:', why if why else 'the stored input does not fail')
+            sys.exit(1 if why else 0)
         rc = mod.replay(obj)
         sys.exit(rc)
     os.environ['VERIF_TIER_ACTIVE'] = args.tier
